@@ -6,12 +6,22 @@ Driver handlers for C10. Paths and byte strings travel as lower-case hex (`-` = 
 * `CODECS`                                → the generated table, `name:ext,ext:magichex;…`
 * `LOWER <path>`                          → hex of the ASCII shape of `lowerPath`
 * `DETECT <path> <content>`               → `R=<codec|plain> W=<codec|plain>`
-* `DETECTS <sched> <path> <content>`      → `R=<codec|plain>` (source with a read schedule, `-` = full reads)
+* `DETECTS <sched> <faults> <path> <content>` → `R=<codec|plain|ERR>` (source with a read schedule, `-` = full
+  reads, and I/O faults `<offset>i` = `Interrupted` / `<offset>e` = another error raised in front of the byte at
+  that offset, `-` = none; `ERR` = `auto_detect_reader` returns the source's error)
 * `RT <writer> <reader> <path> <plain> <opts>`   → `W=<codec|plain|other> R=<SAME|FAIL>`
 * `RD <reader> <path> C <codec> <plain> <opts>`  → `DECODED|VERBATIM|FAIL`
 * `RD <reader> <path> P <raw> <opts>`            → `VERBATIM|FAIL`
 * `CGLOB <kind> <opts> (<path> <writer> <plain>)*` → `W=<c1>,<c2>,… R=<SAME|FAIL>`
   (`opts` = `sh=<k|none>,per=<k>,par=<0|1>,hdr=<0|1>`)
+* `ODETECT <rawname> <path> <content>`, `ORT <rawname> <writer> <reader> <path> <plain> <opts>`: as `DETECT` / `RT`
+  for a file name that is NOT valid UTF-8: `<rawname>` = hex of the name's bytes (what the real code got, kept for
+  replay), `<path>` = its `to_string_lossy()` form (std's lossy decoding, applied by the harness), which is what
+  `detect_from_extension` looks at.
+* `XREG <fresh|used> <extras> <KIND> <args…>` with `KIND ∈ {CODECS, DETECT, DETECTS, RT, RD}`: the same request
+  evaluated in a process that registered the user codecs `<extras>` = `name:ext,ext:magichex|none;…`
+  (`fresh`: `register_codec` was the process's first registry operation; `used`: a detection came first). The table
+  is computed by the model of the registry STATE (`Registry.run`), the codec family is `toyIn` over that table.
 
 The handlers evaluate `detectExt`, `readerCodecSrc`, `autoWriter`, `autoReader`, the per-entry-point
 definitions (`AnyWriter.run`, `Reader.run`, `readGlob`) — the definitions the theorems of `Props/C10.lean`
@@ -21,8 +31,17 @@ the line formats `lineJsonl` / `lineCsv` (a record = the bytes of one line) stan
 namespace IB.D10
 open IB.Wire IB.Compression
 
+/-- hex decoding with an accumulator (payloads of several 100 KiB must not recurse per byte) -/
+def hexAcc : List Char → List Nat → Option (List Nat)
+  | [], acc => some acc.reverse
+  | [_], _ => none
+  | a :: b :: rest, acc =>
+    match hexDigit? a, hexDigit? b with
+    | some x, some y => hexAcc rest ((x * 16 + y) :: acc)
+    | _, _ => none
+
 def bytes? (s : String) : Option Bytes :=
-  if s == "-" then some [] else hexToBytes? s.toList
+  if s == "-" then some [] else hexAcc s.toList []
 
 def path? (s : String) : Option (List Char) := do
   let bs ← bytes? s
@@ -30,6 +49,15 @@ def path? (s : String) : Option (List Char) := do
   pure str.toList
 
 def hexOut (bs : Bytes) : String := if bs.isEmpty then "-" else bytesToHex bs
+
+/-- the registry a request is evaluated in: the table `get_registry()` returns, the codec family standing in
+    for the registered codecs (and for the cloud writer's own encoders) -/
+structure Env where
+  tbl : List CodecEntry
+  K : CodecImpl
+
+/-- a process that never called `register_codec` -/
+def baseEnv : Env := ⟨codecTable, toy⟩
 
 /-- writer / reader entry points as they appear in requests -/
 inductive WTok | raw | j (w : JWriter) | c (w : CWriter)
@@ -53,17 +81,18 @@ def opts? (s : String) : Option Opts := do
   let hdr ← if hdr == "1" then some true else if hdr == "0" then some false else none
   pure ⟨shards, per, par, hdr⟩
 
-/-- `num_cpus::get().max(2)`: only used when `shards = None`, which the harness never sends to the
-    free parallel writers; the result does not depend on it (`every_writer_wraps`) -/
+/-- `num_cpus::get().max(2)` (`2 * …` for CSV): used when `sh=none`; the result does not depend on it
+    (`every_writer_wraps` holds for every value) -/
 def autoShards : Nat := 16
 /-- partition count of `collect_par(None, None)`; the result does not depend on it -/
 def autoParts : Nat := 4
 
 def writer? (o : Opts) : String → Option WTok
   | "raw" => some .raw | "jsonl_vec" => some (.j .vec) | "jsonl_par" => some (.j (.par o.shards autoShards))
-  | "csv_vec" => some (.c .vec) | "csv_par" => some (.c (.par o.shards autoShards)) | "pc_jsonl" => some (.j .pc)
+  | "csv_vec" => some (.c .vec) | "csv_alias" => some (.c .alias)
+  | "csv_par" => some (.c (.par o.shards autoShards)) | "pc_jsonl" => some (.j .pc)
   | "pc_jsonl_par" => some (.j (.pcPar o.shards autoShards)) | "pc_csv" => some (.c .pc)
-  | "pc_csv_par" => some (.c (.pcPar autoParts)) | "cloud_jsonl" => some (.j .cloud) | _ => none
+  | "pc_csv_par" => some (.c (.pcPar o.shards autoParts)) | "cloud_jsonl" => some (.j .cloud) | _ => none
 
 def reader? (o : Opts) : String → Option RTok
   | "raw" => some .raw | "jsonl_vec" => some (.j .vec) | "jsonl_helper" => some (.j .helper)
@@ -79,25 +108,25 @@ def cHeader (hdr : Bool) (plain : Bytes) : Bytes :=
 def cRecs (hdr : Bool) (plain : Bytes) : List Bytes := IB.Io.csvBody hdr (splitNl plain)
 
 /-- the bytes writer `w` stores under `path` for the payload `plain` -/
-def storedOf (o : Opts) (w : WTok) (path : List Char) (plain : Bytes) : Option Bytes :=
+def storedOf (e : Env) (o : Opts) (w : WTok) (path : List Char) (plain : Bytes) : Option Bytes :=
   match w with
-  | .raw => some (autoWriter toy codecTable path plain)
-  | .j w => (AnyWriter.jsonl w id).run toy codecTable path (jRecs plain)
-  | .c w => (AnyWriter.csv w o.hdr (cHeader o.hdr plain) withNl).run toy codecTable path (cRecs o.hdr plain)
+  | .raw => some (autoWriter e.K e.tbl path plain)
+  | .j w => (AnyWriter.jsonl w id).run e.K e.K e.tbl path (jRecs plain)
+  | .c w => (AnyWriter.csv w o.hdr (cHeader o.hdr plain) withNl).run e.K e.K e.tbl path (cRecs o.hdr plain)
 
 /-- does reader `r` return the payload `plain` from `file` stored under `path`? -/
-def readsBack (o : Opts) (r : RTok) (path : List Char) (file plain : Bytes) : Bool :=
+def readsBack (e : Env) (o : Opts) (r : RTok) (path : List Char) (file plain : Bytes) : Bool :=
   match r with
-  | .raw => autoReader toy codecTable path file == some plain
-  | .j r => r.run toy codecTable lineJsonl path file == some (jRecs plain)
-  | .c r => r.run toy codecTable (lineCsv o.hdr) path file == some (cRecs o.hdr plain)
+  | .raw => autoReader e.K e.tbl path file == some plain
+  | .j r => r.run e.K e.tbl lineJsonl path file == some (jRecs plain)
+  | .c r => r.run e.K e.tbl (lineCsv o.hdr) path file == some (cRecs o.hdr plain)
 
 def codecLabel : Option CodecEntry → String
   | some c => c.name
   | none => "plain"
 
-def handleCodecs : List String → String
-  | [] => ";".intercalate (codecTable.map fun c =>
+def handleCodecs (e : Env) : List String → String
+  | [] => ";".intercalate (e.tbl.map fun c =>
       c.name ++ ":" ++ ",".intercalate c.exts ++ ":" ++ (match c.magic with | some m => hexOut m | none => "none"))
   | _ => "BAD-OP"
 
@@ -114,60 +143,83 @@ def handleLower : List String → String
     | none => "BAD-OP"
   | _ => "BAD-OP"
 
-def handleDetect : List String → String
+def handleDetect (e : Env) : List String → String
   | [p, c] => match path? p, bytes? c with
     | some path, some content =>
-      "R=" ++ codecLabel (readerCodec codecTable path content) ++ " W=" ++ codecLabel (detectExt codecTable path)
+      "R=" ++ codecLabel (readerCodec e.tbl path content) ++ " W=" ++ codecLabel (detectExt e.tbl path)
     | _, _ => "BAD-OP"
   | _ => "BAD-OP"
 
-/-- which codec of the specification turned `plain` into `stored` (as the harness classifies real files) -/
-def classifyStored (stored plain : Bytes) : String :=
+/-- which codec of the registry turned `plain` into `stored` (as the harness classifies real files): the
+    stream starts with the codec's magic bytes (if it has any) and decodes to `plain` -/
+def classifyStored (e : Env) (stored plain : Bytes) : String :=
   if stored == plain then "plain"
-  else match specSignatures.find? (fun r => r.2.isPrefixOf stored && toy.decompress r.1 stored == some plain) with
-    | some r => r.1
+  else match e.tbl.find? (fun c => (c.magic.getD []).isPrefixOf stored && e.K.decompress c.name stored == some plain) with
+    | some c => c.name
     | none => "other"
 
 def sched? (s : String) : Option (List Nat) :=
   if s == "-" then some [] else
     (s.splitOn ",").mapM fun t => (parseNat? t).bind fun k => if k = 0 then none else some (k - 1)
 
-/-- `DETECTS <sched> <path> <content>`: the decision on a source with the given read schedule -/
-def handleDetectS : List String → String
-  | [sc, p, c] => match sched? sc, path? p, bytes? c with
-    | some sched, some path, some content =>
-      "R=" ++ codecLabel (readerCodecSrc codecTable path ⟨content, sched⟩)
-    | _, _, _ => "BAD-OP"
+def fault? (t : String) : Option (Nat × Fault) :=
+  let n := (t.dropEnd 1).toString
+  if t.endsWith "i" then (parseNat? n).map (·, .interrupted)
+  else if t.endsWith "e" then (parseNat? n).map (·, .error)
+  else none
+
+def faults? (s : String) : Option (List (Nat × Fault)) :=
+  if s == "-" then some [] else (s.splitOn ",").mapM fault?
+
+/-- the stream: the fault(s) registered at offset `i` are raised in front of byte `i` (faults at or behind the
+    end never fire); `faults` sorted by offset -/
+def mkItems : Nat → Bytes → List (Nat × Fault) → List Item
+  | _, [], fs => fs.map fun f => .fault f.2
+  | i, b :: bs, fs =>
+    (fs.takeWhile (·.1 ≤ i)).map (fun f => Item.fault f.2) ++ .byte b :: mkItems (i + 1) bs (fs.dropWhile (·.1 ≤ i))
+
+def sortedFaults (fs : List (Nat × Fault)) : Bool :=
+  (fs.zip (fs.drop 1)).all fun p => decide (p.1.1 ≤ p.2.1)
+
+/-- `DETECTS <sched> <faults> <path> <content>`: the decision on a source with the given read schedule / faults -/
+def handleDetectS (e : Env) : List String → String
+  | [sc, fl, p, c] => match sched? sc, faults? fl, path? p, bytes? c with
+    | some sched, some faults, some path, some content =>
+      if !sortedFaults faults then "BAD-OP" else
+      match readerCodecSrc e.tbl path ⟨mkItems 0 content faults, sched⟩ with
+      | some d => "R=" ++ codecLabel d
+      | none => "R=ERR"
+    | _, _, _, _ => "BAD-OP"
   | _ => "BAD-OP"
 
-def handleRt : List String → String
+def handleRt (e : Env) : List String → String
   | [w, r, p, x, o] => match opts? o with
     | none => "BAD-OP"
     | some o => match writer? o w, reader? o r, path? p, bytes? x with
       | some w, some r, some path, some plain =>
-        match storedOf o w path plain with
+        match storedOf e o w path plain with
         | none => "W=PANIC R=FAIL"
         | some stored =>
-          "W=" ++ classifyStored stored plain ++ " R=" ++ (if readsBack o r path stored plain then "SAME" else "FAIL")
+          "W=" ++ classifyStored e stored plain ++ " R=" ++ (if readsBack e o r path stored plain then "SAME" else "FAIL")
       | _, _, _, _ => "BAD-OP"
   | _ => "BAD-OP"
 
-def handleRd : List String → String
+def handleRd (e : Env) : List String → String
   | [r, p, "C", c, x, o] => match opts? o with
     | none => "BAD-OP"
     | some o => match reader? o r, path? p, bytes? x with
       | some r, some path, some plain =>
-        if (signatureOf c).isNone then "BAD-OP" else
-        let file := toy.compress c plain
-        if readsBack o r path file plain then "DECODED"
+        if !(e.tbl.any fun row => row.name == c) then "BAD-OP" else
+        let file := e.K.compress c plain
+        if readsBack e o r path file plain then "DECODED"
         else match r with
-          | .raw => if autoReader toy codecTable path file == some file then "VERBATIM" else "FAIL"
+          | .raw => if autoReader e.K e.tbl path file == some file then "VERBATIM" else "FAIL"
           | _ => "FAIL"   -- record readers cannot parse a compressed stream
       | _, _, _ => "BAD-OP"
   | [r, p, "P", x, o] => match opts? o with
     | none => "BAD-OP"
     | some o => match reader? o r, path? p, bytes? x with
-      | some r, some path, some raw => if readsBack o r path raw raw then "VERBATIM" else "FAIL"
+      | some r, some path, some raw => if readsBack e o r path raw raw then "VERBATIM" else "FAIL"
       | _, _, _ => "BAD-OP"
   | _ => "BAD-OP"
 
@@ -185,26 +237,70 @@ def globItems? (o : Opts) : List String → Option (List (List Char × WTok × B
 /-- `CGLOB <local_jsonl|local_csv|cloud_jsonl> <opts> (<path> <writer> <plain>)*`: every file is written
     through its writer entry point under its own name, then all are read through the glob entry point
     (files listed in the order `expand_glob` / `expand_cloud_glob` return them) -/
-def handleGlob : List String → String
+def handleGlob (e : Env) : List String → String
   | kind :: o :: rest => match opts? o with
     | none => "BAD-OP"
     | some o => match globItems? o rest with
       | none => "BAD-OP"
       | some items =>
         if kind != "local_jsonl" && kind != "local_csv" && kind != "cloud_jsonl" then "BAD-OP" else
-        match items.mapM fun i => (storedOf o i.2.1 i.1 i.2.2).map fun b => (i.1, b) with
+        match items.mapM fun i => (storedOf e o i.2.1 i.1 i.2.2).map fun b => (i.1, b) with
         | none => "W=PANIC R=FAIL"
         | some files =>
-          let ws := (items.zip files).map fun (i, f) => classifyStored f.2 i.2.2
+          let ws := (items.zip files).map fun (i, f) => classifyStored e f.2 i.2.2
           let back :=
             if kind == "local_csv" then
-              readGlob toy codecTable (lineCsv o.hdr) files == some (items.map fun i => cRecs o.hdr i.2.2).flatten
-            else readGlob toy codecTable lineJsonl files == some (items.map fun i => jRecs i.2.2).flatten
+              readGlob e.K e.tbl (lineCsv o.hdr) files == some (items.map fun i => cRecs o.hdr i.2.2).flatten
+            else readGlob e.K e.tbl lineJsonl files == some (items.map fun i => jRecs i.2.2).flatten
           "W=" ++ ",".intercalate ws ++ " R=" ++ (if back then "SAME" else "FAIL")
   | _ => "BAD-OP"
 
+/-- `ODETECT <rawname> …` / `ORT <rawname> …`: the raw (non-UTF-8) name is for replay only -/
+def handleODetect : List String → String
+  | _ :: rest => handleDetect baseEnv rest
+  | _ => "BAD-OP"
+
+def handleORt : List String → String
+  | _ :: rest => handleRt baseEnv rest
+  | _ => "BAD-OP"
+
+/-- one registered codec on the wire: `name:ext,ext:magichex|none` -/
+def userRow? (s : String) : Option CodecEntry :=
+  match s.splitOn ":" with
+  | [n, es, m] =>
+    let exts := if es == "" then [] else es.splitOn ","
+    if n == "" then none
+    else if m == "none" then some ⟨n, exts, none⟩
+    else (bytes? m).map fun b => ⟨n, exts, some b⟩
+  | _ => none
+
+def userRows? (s : String) : Option (List CodecEntry) :=
+  if s == "-" then some [] else (s.splitOn ";").mapM userRow?
+
+/-- `XREG <fresh|used> <extras> <KIND> <args…>`: the registry STATE is run through the model of
+    `get_registry` / `register_codec` from a fresh process, then the request is evaluated on the table the
+    next `get_registry()` returns -/
+def handleXReg : List String → String
+  | pre :: ex :: kind :: args =>
+    match userRows? ex with
+    | none => "BAD-OP"
+    | some extras =>
+      if pre != "fresh" && pre != "used" then "BAD-OP" else
+      let ops : List RegOp := (if pre == "used" then [RegOp.get] else []) ++ extras.map RegOp.register
+      let tbl := ((Registry.run codecTable none ops).get codecTable).1
+      let e : Env := ⟨tbl, toyIn tbl⟩
+      match kind with
+      | "CODECS" => handleCodecs e args
+      | "DETECT" => handleDetect e args
+      | "DETECTS" => handleDetectS e args
+      | "RT" => handleRt e args
+      | "RD" => handleRd e args
+      | _ => "BAD-OP"
+  | _ => "BAD-OP"
+
 def handlers : List (String × (List String → String)) :=
-  [("CODECS", handleCodecs), ("LOWER", handleLower), ("DETECT", handleDetect), ("DETECTS", handleDetectS),
-   ("RT", handleRt), ("RD", handleRd), ("CGLOB", handleGlob)]
+  [("CODECS", handleCodecs baseEnv), ("LOWER", handleLower), ("DETECT", handleDetect baseEnv),
+   ("DETECTS", handleDetectS baseEnv), ("RT", handleRt baseEnv), ("RD", handleRd baseEnv),
+   ("CGLOB", handleGlob baseEnv), ("ODETECT", handleODetect), ("ORT", handleORt), ("XREG", handleXReg)]
 
 end IB.D10
